@@ -29,7 +29,7 @@ RULE = ("exact stream: dyadic coordinates of shapes (3,), (n,3), (m,n,3) incl. b
         "displacement/index_displacement/distance (ndarrays and AtomArray/AtomArrayStack objects carrying their own box, with and without an explicit box)/coord_to_fraction/fraction_to_coord/move_inside_box/"
         "remove_pbc_from_coord/remove_pbc/repeat_box(_coord)/is_orthogonal/box_volume/centroid/90-degree unit cells, compared as exact "
         "rationals with the Lean model; float stream: random float32/float64 geometry judged by the oracle "
-        "(textbook formulae, rigid-motion invariance, lattice enumeration; periodic distance/angle/dihedral with every consecutive atom pair split across a box face; properness of every transform.py helper incl. (nearly) antiparallel align_vectors and rotation axes of every length; unit cells of rotated / permuted / mirrored boxes; strongly skewed cells with molecules wrapped by mixed lattice vectors; molecules whose atoms are interleaved in the array (all O, all H1, all H2); histories with one box array changed in place + purity). non-trivial = at least two distinct "
+        "(textbook formulae, rigid-motion invariance, lattice enumeration; periodic distance/angle/dihedral with every consecutive atom pair split across a box face; properness of every transform.py helper incl. (nearly) antiparallel align_vectors and rotation axes of every length; unit cells of rotated / permuted / mirrored boxes; strongly skewed cells with molecules wrapped by mixed lattice vectors; molecules whose atoms are interleaved in the array (all O, all H1, all H2); remove_pbc with selection / chains / stacks; one object reused across in-place changes; refused calls change nothing; the same values in other spellings (layouts, dtypes, NumPy scalars); orient_principal_components, dihedral_backbone, util helpers; histories with one box array changed in place + purity). non-trivial = at least two distinct "
         "coordinates and (box given => some coordinate pair crosses a box face) or an error branch; "
         "distinct = different (kind, ops / float payload)")
 TRUSTED = ["numpy broadcasting, matmul, linalg.inv/det, fancy indexing, cumsum modelled by their documented semantics",
